@@ -15,6 +15,8 @@ start = re.compile(r'^\(\d+\) ')
 def flush():
     global n
     st = ''.join(cur)
+    if re.match(r'^\(\d+\) SHARED_(WRITE|READ)\(', st) or re.match(r'^\(\d+\) __CPROVER_memory#\d+ == (\(\S+ \? )?__CPROVER_memory#\d+( : __CPROVER_memory#\d+\))?\s*(\n\s*guard:[^\n]*)?(\n//[^\n]*)*\s*$', st):
+        return
     if re.search(r'__CPROVER_memory(?!_leak)', st) and not ('__CPROVER_POINTER_OBJECT(&' in st or re.search(r'== &[A-Za-z_]', st)):
         n += 1
         if n <= int(os.environ.get('N', '12')):
